@@ -4,7 +4,7 @@
   in particular no panic and no fuel exhaustion on the stated domain.  These are the three leaf functions the properties
   C17 (checkFiles / listFilesInDir), C05 (Create) and C12 (checkZip / Unzip) rest on.
 
-  Bridges (helpers in `Proofs/TieFnZip{Vendor,Fold,Path,CC}.lean`, `Proofs/GoRtLemmasZip.lean`):
+  Bridges (helpers in `Proofs/TieFnZip{Vendor,Fold,Path,CC,Div}.lean`, `Proofs/GoRtLemmasZip.lean`):
   * `isVendoredPackage`: the generated code gets the go version string and an abstract `versionCompare`; the model gets the
     boolean `ge124`; tie under `ge124 = decide (0 ≤ versionCompare vers "go1.24")`.
   * `strToFold`: `unicode.SimpleFold` is the abstract `simpleFold : Int → Int`; the model uses the committed orbit-minimum
@@ -16,7 +16,8 @@
     `errText` of the model's three collision reasons; `path.Dir` is `PathClean.pathDir` on both sides.  The model bounds the
     recursion by its own fuel `n` and reports `Reason.panic` when it runs out (absolute paths: the Go code recurses for
     ever); the tie holds for every `n` that is enough for the model, and `n = p.length + 1` (the model's `ccCheckTop`) is
-    enough for every clean relative path.
+    enough for every clean relative path.  Where the model IS out of fuel at `n`, the generated function is out of fuel
+    (`Err.fuel`) for every `fuel ≤ n` (`collisionChecker_check_tie_outOfFuel`): the two notions of "does not end" agree.
 -/
 import ModVerif.Generated.FnZip
 import ModVerif.Model.Zip
@@ -25,6 +26,7 @@ import ModVerif.Proofs.TieFnZipVendor
 import ModVerif.Proofs.TieFnZipFold
 import ModVerif.Proofs.TieFnZipPath
 import ModVerif.Proofs.TieFnZipCC
+import ModVerif.Proofs.TieFnZipDiv
 namespace ModVerif.Tie.FnZip
 open ModVerif ModVerif.GoRt ModVerif.GoRtZip ModVerif.TieFnZip
 open ModVerif.Generated.Zip (pathInfo)
@@ -130,5 +132,20 @@ example : Generated.Zip.collisionChecker_check Drv.GenZip.simpleFoldI 20
     ccOut (Zip.ccCheckTop Zip.strToFold (toCC [(B "a/b", ⟨B "a/b", false⟩), (B "a", ⟨B "a", true⟩)]) (B "A") false) =
       (some "case-insensitive file name collision: %q and %q", [(B "a/b", ⟨B "a/b", false⟩), (B "a", ⟨B "a", true⟩)]) := by
   decide +kernel
+
+/-- the non-terminating side: where the model runs out of ITS fuel `n` (no clash on the first `n` levels and `path.Dir` has
+    not reached "." — e.g. every absolute directory path: the Go code recurses until the stack overflows), the generated
+    function runs out of fuel for every `fuel ≤ n`.  Together with `collisionChecker_check_tie`: if the model ends for some
+    `n`, the generated function returns its result for all large fuel; if it ends for no `n`, the generated function
+    returns `Err.fuel` for every fuel. -/
+theorem collisionChecker_check_tie_outOfFuel (simpleFold : Int → Int) (K : Nat) (hsf : FoldsTo simpleFold K) (n fuel : Nat)
+    (cc : List (Bytes × pathInfo)) (p : Bytes) (isDir : Bool)
+    (hn : (Zip.ccCheck Zip.strToFold n (toCC cc) p isDir).2 = some .panic) (hf : fuel ≤ n) :
+    Generated.Zip.collisionChecker_check simpleFold fuel cc p isDir = .error .fuel :=
+  check_diverges simpleFold K hsf fuel n cc p isDir hf hn
+
+-- the directory "/": `path.Dir("/") = "/"`, the recursion never ends
+example : Generated.Zip.collisionChecker_check Drv.GenZip.simpleFoldI 30 [] [47] true = .error .fuel ∧
+    (Zip.ccCheck Zip.strToFold 30 (toCC []) [47] true).2 = some .panic := by decide +kernel
 
 end ModVerif.Tie.FnZip
